@@ -2,6 +2,7 @@
 # seed_eval.sh <worktree> <seed-name> <check ids...> : verify a seeded change (suite passes, demo fails with / passes
 # without it), run the given checks against the worktree, store everything under /verif/seeded/<seed-name>/
 wt=$1; name=$2; shift 2
+base=$(cd "$(dirname "$0")" && pwd)
 d=/verif/seeded/$name; mkdir -p $d
 cd $wt || exit 2
 git diff -- hexital > $d/patch.diff
@@ -16,7 +17,7 @@ out=/tmp/seedout_$name; mkdir -p $out
 res=""
 for c in "$@"; do
   s=$(date +%s)
-  HEXITAL_REPO=$wt VERIF_OUT=$out /verif/check $c --tier quick > $out/$c.log 2>&1; rc=$?
+  HEXITAL_REPO=$wt VERIF_OUT=$out $base/check $c --tier quick > $out/$c.log 2>&1; rc=$?
   e=$(date +%s)
   nv=$(grep -c '^VIOLATION' $out/$c.log)
   echo "  check $c rc=$rc violations=$nv $((e-s))s: $(grep '^  obligation' $out/$c.log | head -2 | cut -c1-230)"
